@@ -5,3 +5,4 @@ pub mod fam_hll;
 pub mod fam_theta;
 pub mod fam_fi;
 pub mod fam_cm;
+pub mod fam_bloom;
